@@ -261,12 +261,10 @@ class QueryWorld:
         if name == "chain":
             out = []
             for a in args:
-                if isinstance(a, IterV):
-                    out += a.drain()
-                elif isinstance(a, (ListObj, TupleV, SetObj)):
-                    out += list(a.items)
-                else:
+                q = ip._seq(a, node)
+                if q is None:
                     return None
+                out += q
             return IterV(out)
         if name == "Counter" and len(args) == 1:
             seq = args[0].drain() if isinstance(args[0], IterV) else (list(args[0].items) if isinstance(args[0], (ListObj, TupleV)) else None)
@@ -423,7 +421,10 @@ class Static:
         return out
 
     def degree(self, n):
-        return len(self.succ(n)) + len(self.pred(n)) if self.shape.directed else len(self.nbrs(n))
+        # a self-loop adds two to the degree of its node (in + out on directed graphs, networkx's convention on undirected ones)
+        if self.shape.directed:
+            return len(self.succ(n)) + len(self.pred(n))
+        return len(self.nbrs(n)) + sum(1 for (u, v) in self.edges() if u == v == n)
 
 
 def _pairs(result, directed):
@@ -746,34 +747,98 @@ class QueryChecker:
                                 self._mismatch(C(name), "orientation:%s" % ("t" if with_t else "flat"), "%s(%s,%s)" % (name, u, v), to_py(val), want, wit)
                         self._run(cls, shape, fn, lambda w, fn=fn, u=u, v=v, with_t=with_t: self._env(fn, cls, u=NodeV(u), v=NodeV(v), t=Int("q") if with_t else NONE),
                                   with_t, judge, C(name), "%s(%s,%s)" % (name, u, v))
-        # --- get_node_snapshots: presence over the two snapshot ids t1 < t2 -------------------------
+        # --- get_node_snapshots: presence over the snapshot ids, timelines materialised consistently with the mode ---
         fn = get("get_node_snapshots")
         shape = loopfree[0]
-        for n in ("A", "D"):
-            methods_ = methods
-            ot = OrderType([["t1"], ["t2"]], [None], 2)
-            self.n_cases += 1
+        from .stats_interp import StatWorld
+        keys = sorted({shape.key(*e) for e in shape.edges}, key=str)
+        offs = (1, 2, 3)
+        for removal in (True, False):
+            if removal:
+                # any presence pattern on t+1..t+3; two sentinel ids t-2, t+6 at which every stored pair is present
+                ids = [-2, 1, 2, 3, 6]
+                patterns = [{**dict(zip(offs, p)), -2: True, 6: True} for p in itertools.product((False, True), repeat=3)]
+            else:
+                # accumulative: a pair is present from its first appearance f to the largest id; it is stored as [[f, f]]
+                patterns = [{o: o >= f for o in offs} for f in offs]
+            for combo in itertools.product(patterns, repeat=len(keys)):
+                if not removal:
+                    ids = sorted({min(o for o in offs if pat[o]) for pat in combo})
+                    if max(ids) != max(o for pat in combo for o in offs if pat[o]):
+                        pass
+                seed = {("present", k, repr(Int("t", o))): pat.get(o, False) for k, pat in zip(keys, combo) for o in ids}
+                for n in ("A", "B", "D"):
+                    self.n_cases += 1
+                    ot = OrderType([["t"]], [], 12)
 
-            def once(ch, n=n):
-                w = QueryWorld(cls, shape, ch, methods_, self.functions)
-                ip = Interp(w, ot, max_depth=10)
-                try:
-                    return w, ip.call_function(fn, {"self": SelfV(), "n": NodeV(n)}), None
-                except AbstractRaise as r:
-                    return w, None, r
-            for ch, (w, val, r) in run_all_choices(once, max_runs=4096):
-                self.n_runs += 1
-                wit = "%s | get_node_snapshots(%s) | %s" % (shape.name, n, {k[1:]: v for k, v in ch.items() if isinstance(k, tuple) and k[0] == "present"})
-                if r is not None:
-                    self.add(C("get_node_snapshots"), "raises:%s" % r.exc, "get_node_snapshots raises %s" % r.exc, wit, getattr(r.node, "lineno", 0))
-                    continue
-                want = []
-                for tk in ("t1", "t2"):
-                    st = Static(shape, lambda key, tk=tk, ch=ch: bool(ch.get(("present", key, tk), False)))
-                    if st.degree(n) > 0:
-                        want.append(tk)
-                if to_py(val) != want:
-                    self._mismatch(C("get_node_snapshots"), "snapshots-of-node", "get_node_snapshots(%s)" % n, to_py(val), want, wit)
+                    def once(ch, n=n, ids=ids, combo=combo, removal=removal):
+                        w = StatWorld(cls, shape, ch, methods, self.functions, removal=removal)
+                        w.ids = [Int("t", o) for o in ids]
+                        if removal:
+                            w.materialise_timelines([Int("t", o) for o in offs])
+                        else:
+                            for k, pat in zip(keys, combo):
+                                f = min(o for o in offs if pat[o])
+                                w.dicts[k].entries[Const("t")] = ListObj([ListObj([Int("t", f), Int("t", f)], persistent=True, tag="interval")],
+                                                                        persistent=True, tag="timeline(%s,%s)" % k)
+                        ip = Interp(w, ot, max_depth=10)
+                        try:
+                            return w, ip.call_function(fn, {"self": SelfV(), "n": NodeV(n)}), None
+                        except AbstractRaise as r:
+                            return w, None, r
+                    for ch, (w, val, r) in run_all_choices(once, max_runs=64, seed=seed):
+                        self.n_runs += 1
+                        wit = "%s | get_node_snapshots(%s) | %s | ids %s | %s" % (
+                            shape.name, n, "removal" if removal else "accumulative", ["t%+d" % o for o in ids],
+                            "; ".join("%s-%s@{%s}" % (k[0], k[1], ",".join("t%+d" % o for o in ids if pat.get(o))) for k, pat in zip(keys, combo)))
+                        if r is not None:
+                            self.add(C("get_node_snapshots"), "raises:%s" % r.exc, "get_node_snapshots raises %s" % r.exc, wit,
+                                     getattr(r.node, "lineno", 0))
+                            continue
+                        want = [repr(Int("t", o)) for o in ids if any(pat.get(o) and n in k for k, pat in zip(keys, combo))]
+                        if to_py(val) != want:
+                            self._mismatch(C("get_node_snapshots"), "snapshots-of-node:%s" % ("removal" if removal else "accumulative"),
+                                           "get_node_snapshots(%s)" % n, to_py(val), want, wit)
+                        if w.effects:
+                            self.add(C("get_node_snapshots"), "query-writes", "the query writes graph state: %s" % (w.effects[0][0],), wit,
+                                     w.effects[0][1])
+
+    # ------------------------------------------------------------------
+    def check_self_loops(self, cls):
+        """Counting queries on the shapes with a self-loop: degree (a loop counts twice), size / number_of_interactions (a loop
+        is one interaction), degree_histogram - methods and functional forms."""
+        directed = cls == "DynDiGraph"
+        methods = self.repo.class_methods(CLASSES[cls], cls)
+        F = self.functions
+        loops = [s for s in SHAPES[directed] if any(u == v for u, v in s.edges)]
+        refs = [
+            ("m", "degree", lambda st, shape: {n: st.degree(n) for n in shape.nodes}),
+            ("m", "size", lambda st, shape: len(st.edges())),
+            ("m", "number_of_interactions", lambda st, shape: len(st.edges())),
+            ("f", "degree", lambda st, shape: {n: st.degree(n) for n in shape.nodes}),
+            ("f", "number_of_interactions", lambda st, shape: len(st.edges())),
+            ("f", "degree_histogram", lambda st, shape: _hist([st.degree(n) for n in shape.nodes])),
+        ]
+        for kind, name, ref in refs:
+            table = methods if kind == "m" else F
+            if name not in table:
+                raise AnalysisError("anchor vanished: %s%s" % ("" if kind == "m" else "function.", name))
+            fn = table[name]
+            construct = (self.repo.construct(CLASSES[cls], cls + "." + name) if kind == "m"
+                         else self.repo.construct(FUNCTION, name) + "[G:%s]" % cls)
+            for shape in loops:
+                for with_t in (True, False):
+                    def judge(st, val, r, wit, asked, ch, name=name, ref=ref, shape=shape, with_t=with_t, construct=construct):
+                        if r is not None:
+                            self.add(construct, "self-loop:raises:%s" % r.exc, "%s raises %s" % (name, r.exc), wit, getattr(r.node, "lineno", 0))
+                            return
+                        got, want = to_py(val), ref(st, shape)
+                        if got != want:
+                            self._mismatch(construct, "self-loop:%s:%s" % (name, "t" if with_t else "flat"),
+                                           "%s on a graph with a self-loop" % name, got, want, wit)
+                    values = dict(t=Int("q") if with_t else NONE, nbunch=NONE, u=NONE, v=NONE)
+                    self._run(cls, shape, fn, lambda w, fn=fn, values=values: self._env(fn, cls, **{
+                        k: v for k, v in values.items() if k in [a.arg for a in fn.args.args]}), with_t, judge, construct, name)
 
     # ------------------------------------------------------------------
     def check_functions(self, cls):
